@@ -48,7 +48,7 @@ Lemma get_frequency_field f rest :
   freq_ok f = true ->
   get_frequency (mkR (freq_field f ++ rest) false) = (Some f, mkR rest false).
 Proof.
-  intros Hf. unfold freq_field, get_frequency.
+  intros Hf. unfold freq_field, get_frequency_g.
   destruct (index_of_freq f) as [i|] eqn:E.
   - apply index_of_freq_sound in E. destruct E as [E Hi].
     rewrite rd_to_bits_small by (pow_bound). cbv beta iota.
@@ -68,7 +68,7 @@ Lemma asc_rt_lc ch f :
   decode_asc (pack (flush (asc_bits (mkAsc AAClc ch f 0%Z false false))))
   = Ok (mkAsc AAClc ch f 0%Z false false).
 Proof.
-  intros Hc Hf. unfold decode_asc, rinit. rewrite unpack_pack_flush.
+  intros Hc Hf. unfold decode_asc, decode_asc_g, rinit. rewrite unpack_pack_flush.
   unfold asc_bits. cbn [a_ot a_chan a_freq a_ext].
   change ((AAClc =? HEAACv1) || (AAClc =? HEAACv2)) with false. cbv beta iota.
   rewrite <- !app_assoc.
@@ -86,7 +86,7 @@ Lemma asc_rt_sbr ot ch f e ps :
   decode_asc (pack (flush (asc_bits (mkAsc ot ch f e true ps))))
   = Ok (mkAsc ot ch f e true ps).
 Proof.
-  intros Hot Hc Hf He. unfold decode_asc, rinit. rewrite unpack_pack_flush.
+  intros Hot Hc Hf He. unfold decode_asc, decode_asc_g, rinit. rewrite unpack_pack_flush.
   unfold asc_bits. cbn [a_ot a_chan a_freq a_ext].
   destruct Hot as [[-> ->] | [-> ->]].
   - change ((HEAACv1 =? HEAACv1) || (HEAACv1 =? HEAACv2)) with true. cbv beta iota.
